@@ -30,6 +30,8 @@ def streams(rng, tier, ctx):
                 sim = H.big_packet_scenario(r, it, modes=(3,))
             elif i % 8 == 0:
                 sim = H.count_full_scenario(r, it, modes=(3,)) if i % 16 == 0 else H.rtt_drop_scenario(r, it)
+            elif i % 8 == 4:
+                sim = H.count_full_scenario(r, it, modes=(3, 3, 2))
             elif i % 8 == 6:
                 # a Reliable packet that has its sequence id but cannot be sent: the (small) frame window is full of frames that
                 # carried only Unreliable data and were all swallowed by a blackout; the sync timer fires during the blackout and
